@@ -143,28 +143,33 @@ type Cfg struct {
 	OwnIP, OwnLLA, RtIP    netip.Addr
 	LAN                    netip.Prefix
 	OfflineSec, PurgeSec   int64
+	ProbeSec               int64 // ProbeDeadline; NewSession requires 0 < Probe <= Offline (and Probe <= 30 min, Offline <= 60 min, Purge <= 24 h)
 }
 
 func StdCfg() Cfg {
 	return Cfg{OwnMAC: lib.HostMAC, RtMAC: lib.RouterMAC, OwnIP: lib.HostIP4, OwnLLA: lib.HostLLA, RtIP: lib.RouterIP4,
-		LAN: lib.HomeLAN, OfflineSec: 300, PurgeSec: 3660}
+		LAN: lib.HomeLAN, OfflineSec: 300, PurgeSec: 3660, ProbeSec: 120}
 }
 
 func (c Cfg) Tok() string {
 	return strings.Join([]string{MacTok(c.OwnMAC), IPTok(c.OwnIP), IPTok(c.OwnLLA), MacTok(c.RtMAC), IPTok(c.RtIP),
-		IPTok(c.LAN.Addr()), strconv.Itoa(c.LAN.Bits()), strconv.FormatInt(c.OfflineSec, 10), strconv.FormatInt(c.PurgeSec, 10)}, ",")
+		IPTok(c.LAN.Addr()), strconv.Itoa(c.LAN.Bits()), strconv.FormatInt(c.OfflineSec, 10), strconv.FormatInt(c.PurgeSec, 10), strconv.FormatInt(c.ProbeSec, 10)}, ",")
 }
 
 func ParseCfg(s string) Cfg {
 	f := strings.Split(s, ",")
-	if len(f) != 9 {
+	if len(f) != 9 && len(f) != 10 {
 		panic("bad cfg token")
+	}
+	probe := int64(120)
+	if len(f) == 10 {
+		probe, _ = strconv.ParseInt(f[9], 10, 64)
 	}
 	bits, _ := strconv.Atoi(f[6])
 	off, _ := strconv.ParseInt(f[7], 10, 64)
 	pur, _ := strconv.ParseInt(f[8], 10, 64)
 	return Cfg{OwnMAC: ParseMac(f[0]), OwnIP: ParseIP(f[1]), OwnLLA: ParseIP(f[2]), RtMAC: ParseMac(f[3]), RtIP: ParseIP(f[4]),
-		LAN: netip.PrefixFrom(ParseIP(f[5]), bits), OfflineSec: off, PurgeSec: pur}
+		LAN: netip.PrefixFrom(ParseIP(f[5]), bits), OfflineSec: off, PurgeSec: pur, ProbeSec: probe}
 }
 
 // ---------------------------------------------------------------- frames
@@ -384,7 +389,7 @@ func NewSim(cfg Cfg, t0 int64) *Sim {
 		RouterLLA:   netip.PrefixFrom(lib.RouterLLA, 64),
 		IFI:         &net.Interface{MTU: 1500, Name: "eth0"},
 	}
-	s, err := packet.Config{Conn: conn, NICInfo: nic, ProbeDeadline: 120 * time.Second,
+	s, err := packet.Config{Conn: conn, NICInfo: nic, ProbeDeadline: time.Duration(cfg.ProbeSec) * time.Second,
 		OfflineDeadline: time.Duration(cfg.OfflineSec) * time.Second, PurgeDeadline: time.Duration(cfg.PurgeSec) * time.Second}.NewSession("")
 	if err != nil {
 		panic(err)
@@ -1557,5 +1562,237 @@ func (g *Gen) NameRepeatHistory() []string {
 		mutate()
 	}
 	ops = append(ops, frame()...)
+	return ops
+}
+
+// DeadlineCfgs: the standard configuration with other (Probe, Offline, Purge) deadlines: the defaults, every ordering of
+// the three that NewSession accepts (it requires only Probe <= Offline), equal values, very small and very large ones.
+func DeadlineCfgs() []Cfg {
+	var l []Cfg
+	for _, d := range [][3]int64{
+		{120, 300, 3660},                    // defaults: Probe < Offline < Purge
+		{120, 300, 60}, {120, 300, 119},     // Purge < Probe <= Offline
+		{60, 300, 120}, {120, 300, 121}, {10, 50, 30}, // Probe < Purge < Offline
+		{120, 300, 300}, {120, 120, 3660}, {120, 120, 120}, {60, 60, 60}, {120, 300, 120}, // equal values
+		{1, 1, 1}, {1, 2, 1}, {1, 1, 3}, {2, 3, 1}, {1, 5, 2}, // very small
+		{1800, 3600, 86400}, {1, 3600, 86400}, {1800, 1800, 1}, {1800, 3600, 600}, {1, 1, 86400}, // very large / extreme mixes
+	} {
+		c := StdCfg()
+		c.ProbeSec, c.OfflineSec, c.PurgeSec = d[0], d[1], d[2]
+		l = append(l, c)
+	}
+	return l
+}
+
+// DeadlineHistory: purges straddling each of the three cutoffs of cfg, for an address A of a client MAC that goes
+// offline by AGEING (silent; the MAC stays active on a link-local address, or is silent as well) or by IPv4
+// SUPERSESSION (the MAC is seen on A and right after on B: A is offline with a fresh last-seen time). Purges are placed
+// at last(A)+D-1..D+2 for D in {Probe, Offline, Purge, Offline+Purge}, relative to the second address's frames, and
+// a pass or two later (removal needs the host offline at the pass). A may speak again in between.
+func (g *Gen) DeadlineHistory(cfg Cfg) []string {
+	u := g.U
+	m := u.MACs[2+g.Rng.Intn(3)]
+	a := u.IP4s[2+g.Rng.Intn(3)]
+	type ev struct {
+		t   int64
+		ops []string
+	}
+	var evs []ev
+	lastA := int64(1 + g.Rng.Intn(30))
+	evs = append(evs, ev{lastA, []string{RxTok(m, "4", a, nil, g.Rng.Intn(3), lastA), "N"}})
+	dls := []int64{cfg.ProbeSec, cfg.OfflineSec, cfg.PurgeSec, cfg.OfflineSec + cfg.PurgeSec}
+	minDL, maxDL := dls[0], dls[3]
+	for _, d := range dls[:3] {
+		if d < minDL {
+			minDL = d
+		}
+	}
+	horizon := lastA + maxDL + 5
+	mode := g.Rng.Intn(4) // 0,1: supersession; 2: ageing beside an active link-local address; 3: ageing, MAC silent
+	var second netip.Addr
+	cls := "4"
+	switch mode {
+	case 0, 1:
+		second = u.IP4s[2+(g.Rng.Intn(2)+1+indexOf(u.IP4s, a)-2)%3]
+	case 2:
+		second, cls = u.IP6s[g.Rng.Intn(2)], "6"
+	}
+	if mode != 3 {
+		t := lastA + int64(g.Rng.Pick(0, 1, 1, 2, 10))
+		if mode == 1 && g.Rng.Chance(50) { // supersession through DHCPv4Update instead of a frame
+			evs = append(evs, ev{t, []string{fmt.Sprintf("U,%s,%s,%s,%d", MacTok(m), IPTok(second), g.name(), t)}})
+		} else {
+			evs = append(evs, ev{t, []string{RxTok(m, cls, second, nil, 0, t), "N"}})
+		}
+		if g.Rng.Chance(60) { // the second address keeps talking (at most a dozen frames)
+			period := minDL/2 + 1
+			if horizon/12 > period {
+				period = horizon/12 + int64(g.Rng.Intn(3))
+			}
+			for t += period; t < horizon; t += period {
+				evs = append(evs, ev{t, []string{RxTok(m, cls, second, nil, 0, t), "N"}})
+			}
+		}
+	}
+	purgeAt := func(t int64) { evs = append(evs, ev{t, []string{fmt.Sprintf("P,%d", t)}}) }
+	for _, d := range dls {
+		for _, e := range []int64{-1, 0, 1, 2} {
+			if g.Rng.Chance(45) && lastA+d+e > lastA {
+				purgeAt(lastA + d + e)
+			}
+		}
+	}
+	for i := 0; i < 2; i++ { // relative to some other event (the second address's frames)
+		k := g.Rng.Intn(len(evs))
+		purgeAt(evs[k].t + dls[g.Rng.Intn(3)] + int64(g.Rng.Pick(0, 1, 1, 2)))
+	}
+	if g.Rng.Chance(25) { // A speaks once more
+		t := lastA + dls[g.Rng.Intn(3)] + int64(g.Rng.Pick(-1, 0, 1, 3))
+		if t > lastA {
+			evs = append(evs, ev{t, []string{RxTok(m, "4", a, nil, 0, t), "N"}})
+		}
+	}
+	if g.Rng.Chance(20) { // another MAC takes A over
+		t := lastA + dls[g.Rng.Intn(3)] + int64(g.Rng.Pick(-1, 1))
+		if t > lastA {
+			other := u.MACs[2+(g.Rng.Intn(2)+1+indexOfMAC(u.MACs, m)-2)%3]
+			evs = append(evs, ev{t, []string{RxTok(other, "4", a, nil, 0, t), "N"}})
+		}
+	}
+	sort.SliceStable(evs, func(i, j int) bool { return evs[i].t < evs[j].t })
+	var ops []string
+	for _, e := range evs {
+		ops = append(ops, e.ops...)
+	}
+	last := evs[len(evs)-1].t
+	ops = append(ops, fmt.Sprintf("P,%d", last+1), fmt.Sprintf("P,%d", last+1+maxDL)) // two closing passes
+	return ops
+}
+
+// ---------------------------------------------------------------- large tables (kind t5s: "S" = dump here)
+
+func scaleIP6(i int) netip.Addr {
+	b := netip.MustParseAddr("2001:db8::").As16()
+	b[13], b[14], b[15] = 0x10, byte(i>>8), byte(i)
+	return netip.AddrFrom16(b)
+}
+
+func scaleIP4(i int) netip.Addr { // i-th LAN address that is neither ours nor the router's
+	n := 0
+	for x := 1; x < 255; x++ {
+		ip := netip.AddrFrom4([4]byte{192, 168, 0, byte(x)})
+		if ip == lib.HostIP4 || ip == lib.RouterIP4 {
+			continue
+		}
+		if n == i {
+			return ip
+		}
+		n++
+	}
+	panic("scaleIP4")
+}
+
+// ManyAddrsHistory: ONE client MAC with n tracked addresses: IPv4 addresses (each new one supersedes the previous,
+// which stays tracked offline), a link-local address and many IPv6 privacy addresses, learned through Parse and
+// through DHCPv4Update. Dumps ("S") at 31, 32, 33, 34 addresses, at n, after a purge past the offline deadline while one
+// address keeps talking, and after the purge that removes the silent ones. One second per op.
+func (g *Gen) ManyAddrsHistory(n int, discipline bool) []string {
+	u := g.U
+	m := u.MACs[2+g.Rng.Intn(3)]
+	now := int64(0)
+	var ops []string
+	n4, n6 := 0, 0
+	rx := func(cls string, ip netip.Addr) {
+		now++
+		ops = append(ops, RxTok(m, cls, ip, nil, 0, now))
+		if discipline || g.Rng.Chance(50) {
+			ops = append(ops, "N")
+		}
+	}
+	rx("6", u.IP6s[0]) // link-local
+	for k := 1; k < n; k++ {
+		switch r := g.Rng.Intn(10); {
+		case r < 2 && n4 < 200:
+			rx("4", scaleIP4(n4))
+			n4++
+		case r < 4 && n4 < 200:
+			now++
+			ops = append(ops, fmt.Sprintf("U,%s,%s,%s,%d", MacTok(m), IPTok(scaleIP4(n4)), g.name(), now))
+			n4++
+		default:
+			rx("6", scaleIP6(n6))
+			n6++
+		}
+		if k+1 >= 31 && k+1 <= 34 || k+1 == 64 || k+1 == 65 || k+1 == 128 || k+1 == 129 {
+			ops = append(ops, "S")
+		}
+	}
+	ops = append(ops, "S")
+	keep := func() { rx("6", u.IP6s[0]) }
+	keep()
+	now += 300
+	ops = append(ops, fmt.Sprintf("P,%d", now), "S") // everything but the link-local address ages
+	keep()
+	rx("6", scaleIP6(0)) // one aged address returns
+	ops = append(ops, "S")
+	now += 3661
+	ops = append(ops, fmt.Sprintf("P,%d", now), "S") // the link-local address ages, the offline ones are removed
+	rx("4", scaleIP4(0))
+	ops = append(ops, fmt.Sprintf("P,%d", now+3662+300), fmt.Sprintf("P,%d", now+2*3662+300))
+	return ops
+}
+
+// ManyMACsHistory: n client MACs with one address each (IPv4 in the LAN for the first 240, IPv6 global beyond),
+// some with a link-local address beside it; dumps after the growth, after a purge past the offline deadline with a
+// part of the clients still talking, and after the purge that removes the silent ones.
+func (g *Gen) ManyMACsHistory(n int, discipline bool) []string {
+	now := int64(0)
+	var ops []string
+	mac := func(i int) net.HardwareAddr { return net.HardwareAddr{0x02, 0xbb, 0xbb, 0xbb, byte(i >> 8), byte(i)} }
+	addr := func(i int) (string, netip.Addr) {
+		if i < 240 {
+			return "4", scaleIP4(i)
+		}
+		return "6", scaleIP6(i)
+	}
+	rx := func(i int, cls string, ip netip.Addr) {
+		now++
+		ops = append(ops, RxTok(mac(i), cls, ip, nil, 0, now))
+		if discipline || g.Rng.Chance(50) {
+			ops = append(ops, "N")
+		}
+	}
+	hosts := 0
+	for i := 0; hosts < n; i++ {
+		cls, ip := addr(i)
+		rx(i, cls, ip)
+		hosts++
+		if g.Rng.Chance(10) && hosts < n {
+			b := netip.MustParseAddr("fe80::").As16()
+			b[14], b[15] = byte(i>>8), byte(i+1)
+			rx(i, "6", netip.AddrFrom16(b))
+			hosts++
+		}
+	}
+	ops = append(ops, "S")
+	now += 200
+	for i := 0; i < 40; i++ { // a part keeps talking
+		j := g.Rng.Intn(n / 2)
+		cls, ip := addr(j)
+		rx(j, cls, ip)
+	}
+	now += 150
+	ops = append(ops, fmt.Sprintf("P,%d", now), "S")
+	for i := 0; i < 10; i++ { // some return on a new IPv4 address (supersession) or by DHCPv4Update
+		j := g.Rng.Intn(100)
+		now++
+		if i%2 == 0 {
+			ops = append(ops, RxTok(mac(j), "4", scaleIP4(241+i), nil, 0, now), "N")
+		} else {
+			ops = append(ops, fmt.Sprintf("U,%s,%s,%s,%d", MacTok(mac(j)), IPTok(scaleIP4(241+i)), g.name(), now))
+		}
+	}
+	now += 3661
+	ops = append(ops, fmt.Sprintf("P,%d", now), "S", fmt.Sprintf("P,%d", now+3661), "S")
 	return ops
 }
